@@ -958,9 +958,9 @@ fn main() {
         "lib: real sh children (0-300000 bytes of stdout, 0-4 MiB of stderr before/after, exit 0/1/3/255 or SIGKILL) read through \
          grep_cli::CommandReader to EOF or closed after 0-3 reads, sync and async stderr, read buffers 1-65536; pre: rg --pre with a \
          generated script whose behaviour per file is echo/transform/replace/small+4MiB+interleaved stderr/exit 3 before, during, \
-         after output (silent or not)/SIGKILL/output after a pause/stderr only/stdin never read/huge output after the first match/NUL byte, flags none,-m1,-l,-q, each also as a multi-line search (-U, pattern that may match the terminator: several files through the same worker's reused buffer), -j1/-j4, plus a \
+         after output (silent or not)/SIGKILL after all or part of the output/SIGTERM/stdout closed long before a failing or succeeding exit/a grandchild that keeps the pipe open/output after a pause/stderr only/stdin never read/huge output after the first match/NUL byte, flags none,-m1,-l,-q, each also as a multi-line search (-U, pattern that may match the terminator: several files through the same worker's reused buffer), -j1/-j4, plus a \
          missing/non-executable/directory command; z: rg -z on gzip/bzip2/xz valid, truncated, corrupted, empty (gz/xz/bz2), several members per file, trailing garbage, double suffix .tar.gz, upper-case suffix .GZ, unrecognised names, the alias extensions .tgz .tbz2 .txz .lzma, \
-         .zst without zstd (the reference command comes from the model's rule table); sel: 12 --pre-glob sets x --pre x -z on 5 files; pipes: random schedules of the two-pipe model. \
+         .zst without zstd (the reference command comes from the model's rule table); sel: 12 --pre-glob sets (with negations, in both orders) x --pre x -z on 5 files; stdin: gzip / plain text on stdin with and without -z / --pre (searched directly either way); pipes: random schedules of the two-pipe model. \
          Non-trivial: a failing and a succeeding command in the same run (pre, z), a failing child with output (lib), every sel case. \
          Excluded from comparison: the error verdict when rg may or may not have seen EOF \
          before stopping (small output with a match under -m1/-l/-q).",
